@@ -12,7 +12,7 @@ VERIF = os.path.dirname(os.path.dirname(os.path.abspath(__file__)))
 OUT = os.environ.get('PYVC_OUT', VERIF)      # where evidence/ and replays/ are written (a scratch directory for self-validation sub-runs)
 VENV_PY = '/venv/bin/python'
 TIERS = {
-    'quick':    dict(z3_ms=10000, cvc5_ms=20000, both=False, twin_cases=150, twin_seconds=25),
+    'quick':    dict(z3_ms=10000, cvc5_ms=20000, both=False, twin_cases=150, twin_seconds=60),
     'thorough': dict(z3_ms=60000, cvc5_ms=120000, both=True, twin_cases=3000, twin_seconds=240),
 }
 
@@ -219,6 +219,8 @@ def main(argv=None):
                     helper_open.append((u.name, o['label'], 'refuted'))
                     if u.level == 'property' and ('%s/%s' % (u.name, o['label'])) in baseline_names:
                         broken_helpers.append((u, o))
+            elif o['status'] == 'skipped':
+                undecided.append((u.name, o['label'] + ' ' + o['detail']))
             else:
                 if u.level == 'property' and o['kind'] in ('post', 'pre') and ('%s/%s' % (u.name, o['label'])) in baseline_names:
                     unknown_baseline.append((u, o))
@@ -257,9 +259,12 @@ def main(argv=None):
         if rep.get('status') in ('ok', 'vacuous') and rep.get('evaluated') and rep.get('fails') and not (rep.get('fails_in_region') and o['meta'].get('finding') in F.ACTIVE):
             json.dump(rec, open(os.path.join(OUT, path), 'w'), indent=1)
             violations.append((path, full, ''))
-        elif full in baseline and o.get('ghost'):
-            rec['note'] = ('obligation was discharged on the unchanged tree and is now refuted; the counter-model assigns havoc-ed state that no input determines '
-                           '(%s), so there is no input to replay' % ', '.join(o['ghost']))
+        elif full in baseline and (o.get('ghost') or not rep.get('evaluated')):
+            # no input to replay: the counter-model assigns havoc-ed state / values of uninterpreted spec functions that no input determines, or the clause
+            # is stated at a loop cut and has no concrete counterpart (the concrete run never evaluates it, so it cannot have contradicted the model)
+            rec['note'] = ('obligation was discharged on the unchanged tree and is now refuted; ' +
+                           ('the counter-model assigns state that no input determines (%s)' % ', '.join(o['ghost']) if o.get('ghost') else
+                            'the clause is stated at a loop cut and is not evaluated by a concrete run') + ', so there is no input to replay')
             json.dump(rec, open(os.path.join(OUT, path), 'w'), indent=1)
             violations.append((path, full, ' no-failing-input-found'))
         else:
@@ -337,11 +342,13 @@ def main(argv=None):
     wall = time.time() - t0
     for ln in known_lines:
         print(ln)
-    seen_v = set()
+    # one line per obligation; a replayed / twin-found input takes precedence over the same obligation reported without one
+    best = {}
     for path, full, suffix in violations:
-        if full in seen_v:
-            continue
-        seen_v.add(full)
+        if full not in best or (best[full][1] and not suffix):
+            best[full] = (path, suffix)
+    seen_v = set(best)
+    for full, (path, suffix) in sorted(best.items(), key=lambda kv: (bool(kv[1][1]), kv[0])):
         print('VIOLATION property=%s replay=%s obligation=%s%s' % (prop, path, full, suffix))
     for name, why in undecided:
         print('UNDECIDED %s: %s' % (name, why))
